@@ -114,6 +114,7 @@ def verify_contract(qn, timeout_ms, only_variant=None):
     f = getattr(con, "func_obj", None) or program.resolve(qn)
     out = {"qualname": qn, "obligations": [], "paths": 0, "fault": None, "assumptions": set(), "unsupported": None,
            "segment": None, "inlined": set(), "contract_calls": set(), "raised_kinds": set()}
+    _STATE["partial"] = out
     if f is None:
         out["unsupported"] = f"function {qn} not found in the tree under test"
         return out
@@ -133,13 +134,90 @@ def verify_contract(qn, timeout_ms, only_variant=None):
             ip.frame_only = ip.opaque_objects = bool(con.frame_only)
             try:
                 _run_one(ip, path, con, f, node, variant, vi)
+            except Unsupported as e:
+                if not path.trace and not path.obligations:
+                    raise                      # nothing of the function is within reach
+                # this path leaves the supported subset: it is undecided, the other paths are still verified
+                out.setdefault("unsupported_paths", []).append(str(e))
+                path.obligations = [o for o in path.obligations if o.kind != "canary"]
+                from .engine import Obligation
+                u = Obligation(f"{qn}#path-out-of-reach", path.pc, z3.BoolVal(False), kind="unsupported", info={"why": str(e)})
+                path.obligations.append(u)
             finally:
                 out["stores_checked"] = out.get("stores_checked", 0) + getattr(ip, "stores_checked", 0)
                 out["assumptions"] |= ip.assumptions_used
                 out["inlined"] |= ip.inlined
                 out["contract_calls"] |= ip.contract_calls
+        def on_path(p, pi):
+            out["paths"] += 1
+            obs = []
+            for ob in p.obligations:
+                ob.name = f"{ob.name}@v{vi}p{pi}"
+                ob.path_index = pi
+                if getattr(p, "no_invariant", None):
+                    ob.info = dict(ob.info or {}, no_invariant=sorted(set(p.no_invariant)))
+                obs.append((ob, getattr(p, "param_terms", {}), getattr(p, "param_recipes", {})))
+            for ob, params, recipes in obs:
+                if ob.kind == "unsupported":
+                    out["obligations"].append({"name": ob.name, "kind": "unsupported", "status": "unknown", "solver_s": 0.0, "backend": None,
+                                               "reason": "path leaves the verifier's subset: " + ob.info["why"], "info": ob.info, "model": None})
+                    continue
+                discharge(ob, timeout_ms)
+                rec = {"name": ob.name if ob.name.startswith(qn) else f"{qn}#{ob.name}", "kind": ob.kind, "status": ob.status,
+                       "solver_s": round(ob.solver_s, 4), "backend": ob.backend, "reason": ob.reason, "info": ob.info, "model": None}
+                if ob.kind == "canary":
+                    # a canary must NOT be provable: 'failed' (sat) means the end of the path is reachable
+                    rec["status"] = {"failed": "alive", "proved": "dead", "unknown": "canary-unknown"}[ob.status]
+                elif ob.status == "failed" and ob.model is not None:
+                    m, vals_ok, pyvals = {}, True, {}
+                    for pname, term in params.items():
+                        try:
+                            pyvals[pname] = decode(ob.model, term)
+                            m[pname] = repr(pyvals[pname])
+                        except Exception:
+                            vals_ok = False
+                            try:
+                                m[pname] = str(ob.model.eval(term, model_completion=True))[:300]
+                            except Exception:
+                                m[pname] = "?"
+                    rec["model"] = m
+                    from .contracts import Const as _Const
+                    for k, sh in variant.items():
+                        if isinstance(sh, _Const):
+                            pyvals.setdefault(k, sh.value)
+                            m.setdefault(k, repr(sh.value))
+                    has_obj = any(r[0] in ("o", "d", "ll") for r in recipes.values())
+                    if vals_ok and not has_obj and not any("." in k for k in pyvals):
+                        try:
+                            rec["replay"] = replay_model(program, con, f, node, pyvals)
+                        except Exception as e:
+                            rec["replay"] = {"reproduced": False, "error": repr(e)}
+                    else:
+                        try:
+                            values = {k: build_from_recipe(program, ob.model, r) for k, r in recipes.items()}
+                            rec["replay"] = replay_objects(program, con, f, node, values)
+                        except Exception as e:
+                            rec["replay"] = {"reproduced": False, "error": repr(e)[:300]}
+                    if not (rec.get("replay") or {}).get("reproduced") and con.witnesses is not None:
+                        consts = {k: sh.value for k, sh in variant.items() if isinstance(sh, _Const)}
+                        import inspect as _insp2
+                        for w in (con.witnesses(consts) if _insp2.signature(con.witnesses).parameters else con.witnesses()):
+                            try:
+                                o2 = replay_objects(program, con, f, node, {**consts, **w})
+                            except Exception:
+                                continue
+                            if o2.get("reproduced"):
+                                o2["source"] = "concrete witness of the contract's witness list (the counter-model's opaque parts could not be rebuilt)"
+                                rec["replay"] = o2
+                                break
+                    rec["variant"] = {k: repr(v)[:100] for k, v in variant.items()}
+                    if (ob.info or {}).get("no_invariant") and not (rec.get("replay") or {}).get("reproduced"):
+                        rec["status"] = "unknown"
+                        rec["reason"] = ("loop without an invariant in the contract: " + "; ".join(ob.info["no_invariant"]) +
+                                         " - the proof no longer matches the code and no failing input was found: undecided")
+                out["obligations"].append(rec)
         try:
-            paths = eng.explore(run)
+            paths = eng.explore(run, on_path=on_path)
         except Unsupported as e:
             out["unsupported"] = str(e)
             return out
@@ -151,62 +229,6 @@ def verify_contract(qn, timeout_ms, only_variant=None):
                 raise
             out["unsupported"] = f"more than {eng.max_paths} paths (undecided, not a violation)"
             return out
-        out["paths"] += len(paths)
-        for pi, p in enumerate(paths):
-            for ob in p.obligations:
-                ob.name = f"{ob.name}@v{vi}p{pi}" if not ob.name.startswith(qn) else f"{ob.name}@v{vi}p{pi}"
-                ob.path_index = pi
-                obs.append((ob, getattr(p, "param_terms", {}), getattr(p, "param_recipes", {})))
-        for ob, params, recipes in obs:
-            discharge(ob, timeout_ms)
-            rec = {"name": ob.name if ob.name.startswith(qn) else f"{qn}#{ob.name}", "kind": ob.kind, "status": ob.status,
-                   "solver_s": round(ob.solver_s, 4), "backend": ob.backend, "reason": ob.reason, "info": ob.info, "model": None}
-            if ob.kind == "canary":
-                # a canary must NOT be provable: 'failed' (sat) means the end of the path is reachable
-                rec["status"] = {"failed": "alive", "proved": "dead", "unknown": "canary-unknown"}[ob.status]
-            elif ob.status == "failed" and ob.model is not None:
-                m, vals_ok, pyvals = {}, True, {}
-                for pname, term in params.items():
-                    try:
-                        pyvals[pname] = decode(ob.model, term)
-                        m[pname] = repr(pyvals[pname])
-                    except Exception:
-                        vals_ok = False
-                        try:
-                            m[pname] = str(ob.model.eval(term, model_completion=True))[:300]
-                        except Exception:
-                            m[pname] = "?"
-                rec["model"] = m
-                from .contracts import Const as _Const
-                for k, sh in variant.items():
-                    if isinstance(sh, _Const):
-                        pyvals.setdefault(k, sh.value)
-                        m.setdefault(k, repr(sh.value))
-                has_obj = any(r[0] in ("o", "d", "ll") for r in recipes.values())
-                if vals_ok and not has_obj and not any("." in k for k in pyvals):
-                    try:
-                        rec["replay"] = replay_model(program, con, f, node, pyvals)
-                    except Exception as e:
-                        rec["replay"] = {"reproduced": False, "error": repr(e)}
-                else:
-                    try:
-                        values = {k: build_from_recipe(program, ob.model, r) for k, r in recipes.items()}
-                        rec["replay"] = replay_objects(program, con, f, node, values)
-                    except Exception as e:
-                        rec["replay"] = {"reproduced": False, "error": repr(e)[:300]}
-                if not (rec.get("replay") or {}).get("reproduced") and con.witnesses is not None:
-                    consts = {k: sh.value for k, sh in variant.items() if isinstance(sh, _Const)}
-                    for w in con.witnesses():
-                        try:
-                            o2 = replay_objects(program, con, f, node, {**consts, **w})
-                        except Exception:
-                            continue
-                        if o2.get("reproduced"):
-                            o2["source"] = "concrete witness of the contract's witness list (the counter-model's opaque parts could not be rebuilt)"
-                            rec["replay"] = o2
-                            break
-                rec["variant"] = {k: repr(v)[:100] for k, v in variant.items()}
-            out["obligations"].append(rec)
     if con.frame_only and not any(o["kind"] == "frame" and o["status"] != "proved" for o in out["obligations"]):
         # the frame obligation of the function: every store executed on every explored path targets an object allocated
         # in the activation or a location of its `modifies` clause (decided by the executor's provenance tracking;
@@ -498,6 +520,7 @@ def _run_one(ip, path, con, f, node, variant, vi):
     if con.requires is not None:
         path.assume(clause_bool(ip, con.requires, env, f"{qn}#requires", mode="assume"))
     old = LDict([(C(k), v) for k, v in env.items()])
+    ip.entry_env = dict(env)
     try:
         if "**" in kwargs or any(type(a).__name__ == "StarArgs" for a in args):
             result = _call_with_symbolic_star(ip, f, node, env)
@@ -570,7 +593,7 @@ def _alarm(sig, frm):
 def _worker(args):
     import signal
     qn, vi, timeout_ms = args
-    budget = int(os.environ.get("PYVC_FUNCTION_BUDGET_S", "60" if timeout_ms <= 10000 else "900"))
+    budget = int(os.environ.get("PYVC_FUNCTION_BUDGET_S", "150" if timeout_ms <= 10000 else "900"))
     signal.signal(signal.SIGALRM, _alarm)
     signal.alarm(budget)
     try:
@@ -582,6 +605,15 @@ def _worker(args):
                     "unsupported": None, "segment": None, "inlined": [], "contract_calls": []}
         program, contracts = load_all()
         f = getattr(contracts[qn], "func_obj", None) or program.resolve(qn)
+        part = _STATE.get("partial") or {}
+        if part.get("qualname") == qn and part.get("obligations"):
+            # the budget ran out while obligations were being discharged: what was decided so far is reported, the
+            # rest of the function is undecided
+            r = dict(part)
+            r["unsupported_variants"] = [f"budget of {budget}s exceeded after {len(part['obligations'])} obligations; the remaining ones are undecided"]
+            for k in ("assumptions", "inlined", "contract_calls", "raised_kinds"):
+                r[k] = sorted(r.get(k, []))
+            return r
         return {"qualname": qn, "obligations": [], "paths": 0, "fault": None, "assumptions": [], "inlined": [],
                 "contract_calls": [], "segment": program.segment(f) if f else None,
                 "unsupported": f"exploration budget of {budget}s exceeded (undecided, not a violation)"}
@@ -605,7 +637,7 @@ def _child(conn, task):
 def _run_tasks(ctx, tasks, timeout_ms, width=16):
     """One process per (function, variant), at most `width` at a time; a process that overruns its budget (z3 can
     ignore its timeout inside recursive-function propagation) is killed and the function reported as undecided."""
-    budget = int(os.environ.get("PYVC_FUNCTION_BUDGET_S", "60" if timeout_ms <= 10000 else "900"))
+    budget = int(os.environ.get("PYVC_FUNCTION_BUDGET_S", "150" if timeout_ms <= 10000 else "900"))
     pending = list(enumerate(tasks))
     running, results = [], {}
     while pending or running:
@@ -679,6 +711,8 @@ def run_property(prop, tier, seed):
         m["fault"] = m["fault"] or r["fault"]
         if r["unsupported"]:
             m.setdefault("unsupported_variants", []).append(r["unsupported"])
+        for u in r.get("unsupported_variants", []):
+            m.setdefault("unsupported_variants", []).append(u)
     results = [merged[qn] for qn in mine]
     return summarise(prop, tier, results, time.time() - t0, contracts)
 
